@@ -46,6 +46,12 @@ def c01(res: CheckResult) -> None:
               list(F.fam_errbase(res.tier, rng)), ic)
     call_unit(res, "calls passing an unexpected keyword named like a reserved name, then ordinary calls",
               list(F.fam_badkw(res.tier, rng)), ic)
+    call_unit(res, "sync / coroutine-function / coroutine-returning / awaitable-returning conditions and captures on "
+                   "sync and async callables", list(F.fam_async_placements(res.tier, rng)), ic)
+    from icv.checks_call import conc_unit
+    conc_unit(res, "concurrent asyncio callers of the same function / object (fresh / inherited contexts): every call is "
+                   "gated by its own preconditions", list(F.fam_conc(res.tier, rng, True)), ic, "async",
+              6 if res.tier == "quick" else 60)
     def_unit(res, "inherited precondition groups incl. overrides under foreign decorators: calls judged against the "
                   "effective DNF for all truth assignments", list(DF.fam_foreign_hier(res.tier, rng)), ic,
              verdicts=True, rng=rng)
@@ -84,6 +90,8 @@ def c02(res: CheckResult) -> None:
               list(F.fam_errbase(res.tier, rng)), ic)
     call_unit(res, "calls passing an unexpected keyword named like a reserved name, then ordinary calls",
               list(F.fam_badkw(res.tier, rng)), ic)
+    call_unit(res, "sync / coroutine-function / coroutine-returning / awaitable-returning conditions and captures on "
+                   "sync and async callables", list(F.fam_async_placements(res.tier, rng)), ic)
     def_unit(res, "inherited postconditions incl. overrides under foreign decorators: calls judged against the "
                   "effective conjunction for all truth assignments", list(DF.fam_foreign_hier(res.tier, rng)), ic,
              verdicts=True, rng=rng)
@@ -163,6 +171,8 @@ def c11(res: CheckResult) -> None:
               list(F.fam_errbase(res.tier, rng)), ic)
     call_unit(res, "calls passing an unexpected keyword named like a reserved name, then ordinary calls",
               list(F.fam_badkw(res.tier, rng)), ic)
+    call_unit(res, "sync / coroutine-function / coroutine-returning / awaitable-returning conditions and captures on "
+                   "sync and async callables", list(F.fam_async_placements(res.tier, rng)), ic)
 
 
 @check("C12")
